@@ -7,6 +7,9 @@ import HdwModel.Driver.Util
 import HdwModel.Spec.Rlp
 import HdwModel.Spec.Bip39
 import HdwModel.Model.Wordlist
+import HdwModel.Spec.Bip32
+import HdwModel.Spec.Ecdsa
+import HdwModel.Model.Nfkd
 
 namespace Hdw.Driver.Judge
 open Hdw Hdw.Driver
@@ -22,6 +25,16 @@ def Verdict.render : Verdict → String
   | .skip => "skip"
 
 def expect (c : Bool) (why : String) : Verdict := if c then .holds else .fails why
+
+/-- canonical decimal numeral: digits only, no leading zero unless "0" -/
+def canonicalNat? (s : String) : Option Nat :=
+  match s.toNat? with
+  | some v => if toString v == s then some v else none
+  | none => none
+
+def lowerHexFixed (n width : Nat) : String :=
+  let ds := (Nat.toDigits 16 n)
+  String.ofList (List.replicate (width - ds.length) '0' ++ ds)
 
 /-! ### C10 -/
 
@@ -77,13 +90,99 @@ def judgeMnRandom (n : Nat) (inject : Option Bytes) (resp : String) : Verdict :=
           | none => .fails "unparsable"
         | _ => .fails "generation failed although the entropy source succeeded"
 
+/-! ### C02 -/
+
+/-- BIP-39 "From mnemonic to seed": PBKDF2-HMAC-SHA512, 2048 rounds, password = sentence
+(NFKD; ASCII here), salt = "mnemonic" ‖ NFKD(passphrase), 64 bytes -/
+def judgeSeed (T : NfkdTable) (phrase pw : Str) (resp : String) : Verdict :=
+  let words := (String.ofList phrase).splitToList (fun c => isWhitespace c) |>.filter (· ≠ "")
+  match bip39Entropy? (words.map String.toList) with
+  | none => expect (resp == "err") "invalid mnemonic must be refused"
+  | some _ =>
+    let sentence := (" ".intercalate words).toUTF8.toList
+    let salt := "mnemonic".toUTF8.toList ++ (String.ofList (T.nfkd pw)).toUTF8.toList
+    let seed := Prim.pbkdf2 (Prim.hmac Prim.sha512 128) 64 sentence salt 2048 64
+    expect (resp == "ok " ++ hx seed) "seed differs from PBKDF2-HMAC-SHA512(sentence, \"mnemonic\"‖NFKD(pass), 2048, 64)"
+
+/-! ### C03 -/
+
+def secpCurve : Curve Prim.Secp.Pt := Prim.realCurve
+
+/-- child numbers of a canonical path text (`none` if the text is not a plain canonical path) -/
+def childNumbers? (text : String) : Option (List Nat) :=
+  if !text.startsWith "m/" then none else
+  ((text.drop 2).toString.splitOn "/").mapM fun c =>
+    let hard := c.endsWith "'"
+    let body := if hard then (c.dropEnd 1).toString else c
+    match canonicalNat? body with
+    | some v => if v < 2 ^ 31 then some (if hard then v + 2 ^ 31 else v) else none
+    | none => none
+
+def judgeDerive (seed : Bytes) (path : String) (resp : String) : Verdict :=
+  match childNumbers? path with
+  | none => .skip
+  | some cns =>
+    let serP := fun k => secpCurve.compressed (secpCurve.mulG k)
+    match Spec.Bip32.derive (Prim.hmac Prim.sha512 128) serP Prim.Secp.n seed cns with
+    | some k => expect (resp == "ok " ++ hx (beFixed 32 k)) "derived key differs from BIP-32 CKDpriv along the path"
+    | none => expect (resp == "err") "BIP-32 declares this derivation invalid: must be an error"
+
+/-! ### C04 -/
+
+def eip55 (addr : Bytes) : String :=
+  let lower := String.join (addr.map fun b => lowerHexFixed b.toNat 2)
+  let digest := Prim.keccak256 lower.toUTF8.toList
+  let cs := lower.toList.zipIdx.map fun (c, i) =>
+    let byte := (digest.getD (i / 2) 0).toNat
+    let nib := if i % 2 == 0 then byte / 16 else byte % 16
+    if nib ≥ 8 then c.toUpper else c
+  "0x" ++ String.ofList cs
+
+def judgeAcctNew (b : Bytes) (resp : String) : Verdict :=
+  let v := beVal b
+  let inRange := 0 < v && v < Prim.Secp.n
+  if b.length == 32 then
+    if inRange then
+      match Prim.Secp.mulG v with
+      | some (x, y) =>
+        let pub := [0x04] ++ beFixed 32 x ++ beFixed 32 y
+        let addr := (Prim.keccak256 (pub.drop 1)).drop 12
+        expect (resp == s!"ok {hx (beFixed 32 v)} {hx pub} {hx (eip55 addr).toUTF8.toList}")
+          "secret / uncompressed public key / EIP-55 address differ from secret·G and Keccak-256"
+      | none => .fails "secret·G is the point at infinity?"
+    else expect (resp == "err") "32-byte secret that is zero or not below n must be rejected"
+  else
+    -- other lengths: rejected, or taken as the same big-endian integer
+    if resp == "err" then .holds
+    else if inRange then
+      match Prim.Secp.mulG v with
+      | some (x, y) =>
+        let pub := [0x04] ++ beFixed 32 x ++ beFixed 32 y
+        expect (resp.startsWith s!"ok {hx (beFixed 32 v)} {hx pub} ") "other lengths must be rejected or read as the same integer"
+      | none => .fails "infinity"
+    else .fails "other lengths must be rejected or read as the same integer (in range)"
+
+/-! ### C05 -/
+
+def judgeSign (key digest : Bytes) (resp : String) : Verdict :=
+  let d := beVal key
+  if !(key.length == 32 && 0 < d && d < Prim.Secp.n && digest.length == 32) then .skip else
+  match resp.splitOn " " with
+  | ["ok", r, s, par] =>
+    match unhex r, unhex s, par.toNat? with
+    | some r, some s, some par =>
+      let r := beVal r; let s := beVal s; let z := beVal digest
+      let n := Prim.Secp.n
+      let Q := Prim.Secp.mulG d
+      if !(1 ≤ r && r < n && 1 ≤ s && s ≤ n / 2) then .fails "r, s out of range (1 ≤ r < n, 1 ≤ s ≤ n/2)"
+      else if !(Spec.Ecdsa.verify secpCurve Q z r s) then .fails "ECDSA verification fails"
+      else if Spec.Ecdsa.recover secpCurve z r s (par == 1) != some Q then .fails "recovery does not return the signer's key"
+      else .holds
+    | _, _, _ => .fails "unparsable"
+  | _ => .fails "signing a valid key/digest must succeed"
+
 /-! ### C14 -/
 
-/-- canonical decimal numeral: digits only, no leading zero unless "0" -/
-def canonicalNat? (s : String) : Option Nat :=
-  match s.toNat? with
-  | some v => if toString v == s then some v else none
-  | none => none
 
 inductive CompClass where
   | good (v : Nat) (hard : Bool)
@@ -131,9 +230,6 @@ def judgeForIndex (i : Nat) (resp : String) : Verdict :=
 
 def secpN : Nat := 0xFFFFFFFFFFFFFFFFFFFFFFFFFFFFFFFEBAAEDCE6AF48A03BBFD25E8CD0364141
 
-def lowerHexFixed (n width : Nat) : String :=
-  let ds := (Nat.toDigits 16 n)
-  String.ofList (List.replicate (width - ds.length) '0' ++ ds)
 
 def judgeSigPrint (r s par : Nat) (resp : String) : Verdict :=
   let want := "0x" ++ lowerHexFixed r 64 ++ lowerHexFixed s 64 ++ lowerHexFixed (27 + par) 2
